@@ -5,6 +5,7 @@ ratio of the style's own font for the character `c` (`ex` against the x-height, 
 advance of `0`): "relative values compute against the correct reference".
 -/
 import WpModel.Model.RatioCache
+import WpModel.Model.CssWide
 import WpModel.Props.C06
 
 namespace Wp.C06
@@ -418,6 +419,32 @@ theorem media_attr_same_up_to_case (a b : String) (h : up a.toList = up b.toList
   rw [← attr_media_case_insensitive a, ← attr_media_case_insensitive b, h]
 
 example : up "Screen, Print".toList = up "SCREEN, print".toList := by decide
+
+/-! ## CSS-wide keywords are ASCII case-insensitive -/
+
+/-- **`INHERIT`, `Inherit`, `inherit` are the same declaration — for every ident text.**
+Upper-casing the text (any mix of cases therefore) does not change whether it is recognised as a
+CSS-wide keyword, nor which one. -/
+theorem css_wide_case_insensitive (text : String) :
+    CssWide.cssWide (String.ofList (up text.toList)) = CssWide.cssWide text := by
+  unfold CssWide.cssWide
+  simp only [String.toList_ofList, lower_up]
+
+/-- … so a shorthand or longhand declaration whose whole value is that ident expands to the same
+longhand / keyword pairs whatever its case. -/
+theorem css_wide_expansion_case_insensitive (longhands : List String) (text : String) :
+    CssWide.expansion longhands (String.ofList (up text.toList)) = CssWide.expansion longhands text := by
+  unfold CssWide.expansion
+  rw [css_wide_case_insensitive]
+
+/-- Exactly the spellings of the two keywords are recognised, each as its lower-case form. -/
+theorem css_wide_examples :
+    CssWide.cssWide "INHERIT" = some "inherit" ∧ CssWide.cssWide "Initial" = some "initial" ∧
+    CssWide.cssWide "inherit" = some "inherit" ∧ CssWide.cssWide "inherits" = none ∧
+    CssWide.cssWide "unset" = none ∧
+    CssWide.expansion ["border_top_width", "border_top_color", "border_top_style"] "InHeRiT" =
+      some [("border_top_width", "inherit"), ("border_top_color", "inherit"), ("border_top_style", "inherit")] := by
+  decide
 
 /-- `media="PRINT"`, `media=" Screen , Print "` select the print device like their lower-case
 spellings (the inputs of the repaired finding), and a list without the device does not. -/
